@@ -33,6 +33,9 @@ MAXLEN = {"quick": 2, "thorough": 3}
 MAXNUM = 3
 
 
+ABS_SOON = int(simnet.T0) + 4  # a few seconds after the histories start
+
+
 def events(dn):
     """The event menu for a configuration with default_noreply = dn."""
     ev = []
@@ -77,6 +80,10 @@ def events(dn):
             ev.append(("flush_all", (), dict(delay=d, noreply=nr)))
         ev.append(("set_many", ({KEYS[0]: BIG, KEYS[1]: b"x"},), dict(noreply=nr)))
         ev.append(("set_many", ({KEYS[0]: b"1", KEYS[1]: BIG},), dict(noreply=nr)))
+    # an expiry given as an absolute unix time (more than 30 days): the item dies at that moment, not later
+    for nr in nrs:
+        ev.append(("set", (KEYS[0], b"x"), dict(expire=ABS_SOON, noreply=nr)))
+    ev.append(("touch", (KEYS[0],), dict(expire=ABS_SOON, noreply=False)))
     ev.append(("advance", (1,), {}))
     ev.append(("advance", (10,), {}))
     return ev
